@@ -22,7 +22,7 @@
  Unrepaired defects are modelled as the code behaves (findings F0, F1, F2, F4, F9, F11,
  G1 ...); the repairs committed to /repo (fix: commits) are mirrored here.
  ***************************************************************************)
-EXTENDS KnownFindings
+EXTENDS KnownFindings, Json
 
 CONSTANTS Cfg0,         \* [buses |-> <<[name, parallel, maxhist]..>>, handlers |-> <<[id, bus, pat, kind, to]..>>] (registration order)
           Types,        \* event types that may be created: sequence, Types[1] is used for driver roots unless DrvTypes says otherwise
@@ -36,7 +36,8 @@ CONSTANTS Cfg0,         \* [buses |-> <<[name, parallel, maxhist]..>>, handlers 
           HardLimit,    \* backlog limit for buses with a history limit (code: 100); 0 = off
           WithErrors,   \* handlers may raise
           WithIdle,     \* drivers may call wait_until_idle
-          WithSleep     \* handlers may sleep for a (non-zero) time in addition to zero-time yields
+          WithSleep,    \* handlers may sleep for a (non-zero) time in addition to zero-time yields
+          KeepLog       \* keep the sequence of emitted lines (spec->code replay of simulated behaviours); FALSE when model checking
 
 VARIABLES
   nev,      \* events created so far
@@ -54,8 +55,9 @@ VARIABLES
   nact,     \* handler activations created so far
   cur,      \* the task inside an atomic stretch, or NoTask
   o,        \* observable state (BubusProps)
+  hlog,     \* history of emitted lines when KeepLog (never read by any action)
   Cfg       \* the static configuration (a variable that never changes, so that one TLC run can validate traces of many configurations)
-vars == <<nev, ev, q, unf, shut, hist, running, idle, semv, depth, lockq, task, nact, cur, o, Cfg>>
+vars == <<nev, ev, q, unf, shut, hist, running, idle, semv, depth, lockq, task, nact, cur, o, hlog, Cfg>>
 
 NoTask == <<"none", "">>
 RL(b) == <<"rl", b>>
@@ -161,6 +163,7 @@ InitWith(c) ==
   /\ task = [t \in Tasks |-> IF t[1] = "d" THEN [T0 EXCEPT !.pc = "run", !.bud = DrvBudget] ELSE T0]
   /\ nact = 0 /\ cur = NoTask
   /\ o = ObsInit(Cfg)
+  /\ hlog = <<>>
 Init == InitWith(Cfg0)
 
 \* ------------------------------------------------------------------------
@@ -382,7 +385,7 @@ HWake(a) ==    \* resumes after sleep(0) / sleep(d)
   /\ cur = NoTask /\ a <= nact /\ task[HT(a)].pc \in {"yield", "sleep"}
   /\ task' = [task EXCEPT ![HT(a)].pc = "ops"]
   /\ cur' = HT(a)
-  /\ o' = Obs(Line("HOp") @@ [act |-> a], ev, nev, hist, q)
+  /\ o' = Obs(Line("HOp") @@ [act |-> a, op |-> IF task[HT(a)].pc = "yield" THEN "y" ELSE "s"], ev, nev, hist, q)
   /\ UNCHANGED <<nev, ev, q, unf, shut, hist, running, idle, semv, depth, lockq, nact>>
 
 InOps(a) == cur = HT(a) /\ task[HT(a)].pc = "ops"
@@ -539,7 +542,7 @@ NextCore ==
         \/ \E b \in B : DIdleBegin(i, b) \/ \E ty \in Range(Types) : DDispatch(i, b, ty)
         \/ \E k \in 1..MaxEv : DAwaitBegin(i, k)
 
-Next == NextCore /\ UNCHANGED Cfg
+Next == NextCore /\ UNCHANGED Cfg /\ hlog' = IF KeepLog /\ o'.nl # o.nl THEN Append(hlog, o'.lastln) ELSE hlog
 Spec == Init /\ [][Next]_vars
 
 \* ------------------------------------------------------------------------
@@ -572,5 +575,7 @@ CollectStats == TLCSet(1, TLCGet(1) \cup {<<w.c, Classify(Cfg, o, w)>> : w \in o
                                    \cup (IF ~ENABLED Next THEN {<<w.c, Classify(Cfg, o, w), "end">> : w \in EndWitnesses} ELSE {}))
 PrintStats == PrintT(<<"WITNESS-CLASSES", TLCGet(1)>>)
 LockOK == semv \in 0..1 /\ depth \in 0..1 /\ Cardinality({t \in Tasks : task[t].holds /\ t[1] = "rl"}) <= 1
+\* spec -> code: every finished behaviour is printed as the trace the harness would record (simulation mode, KeepLog)
+EmitBehaviour == (KeepLog /\ ~ENABLED Next) => PrintT(<<"BEH", ToJson([cfg |-> Cfg, log |-> hlog, wit |-> {[c |-> w.c, kf |-> Classify(Cfg, o, w)] : w \in o.wit}])>>)
 TypeOK == /\ nev \in 0..MaxEv /\ nact \in 0..MaxAct /\ \A b \in B : unf[b] >= 0
 =============================================================================
